@@ -1,7 +1,7 @@
 (* Props/C07.v — C07: the CSS lexer follows the CSS Syntax token grammar; IsIdent / IsURLUnquoted agree
    with it.  Also holds the CSS-lexer instances of C01 (no crash / hang / over-read) and C02 (tokens are
    faithful slices).  Statements only; each is closed by [exact] of a lemma proved under Css/. *)
-From Verif Require Import Common.Base Common.Lx Css.Model Css.Proofs Css.Agree Css.Relex.
+From Verif Require Import Common.Base Common.Lx Css.Model Css.Proofs Css.Agree Css.Relex Css.Classes.
 
 (* C01: from every state reachable between two calls, Next returns (no panic: no read outside the
    buffer data ++ [0]) and re-establishes the invariant. *)
@@ -74,3 +74,18 @@ Theorem css_relex_idempotent : forall d toks ty b, css_lex d = LexDone toks -> I
   css_lex b = LexDone [(ty, b)].
 Proof. exact css_relex_proof. Qed.
 Print Assumptions css_relex_idempotent.
+
+(* C07 (partial): a sequence of tokens, each written according to the railroad diagram of its class
+   (tok_spec, Css/Classes.v) and followed by texts that do not merge with it (the follower condition carried by
+   tok_spec: the CSS Syntax separation rules), lexes to exactly that sequence of token types and texts.
+   Classes proved, each by a maximal-munch lemma: whitespace; colon, semicolon, comma, brackets, the five match
+   operators, column, CDO, CDC; comments; identifiers, custom-property names, functions, at-keywords and hashes
+   without escapes; numbers, percentages and dimensions including the back-off of a '.' or 'e' that cannot
+   continue the number; strings and bad strings without escapes.
+   MISSING (no constructor in tok_spec, so such tokens cannot occur in the hypothesis): escapes inside names and
+   strings, url( ) and bad-url tokens, unicode-range tokens, delimiters.  Those are covered by the
+   correspondence run and the token-grammar oracle only. *)
+Theorem css_token_sequences_partial : forall toks, seq_ok toks ->
+  css_lex (concat (map snd toks)) = LexDone toks.
+Proof. exact css_token_sequences_proof. Qed.
+Print Assumptions css_token_sequences_partial.
